@@ -161,7 +161,7 @@ verif_harness! {
     unwind: 34,
     prop: |inp| { d_dec::<Tc26>(inp, &r::TC26) }
 }
-//@ harness name=magma_rt_ed_tc26 prop=C01,C20 tier=quick bits=320 est=170 desc="D: Magma dec(enc(b)) == b incl. key loading, all keys, all blocks"
+//@ harness name=magma_rt_ed_tc26 prop=C01,C20 tier=quick bits=320 est=215 desc="D: Magma dec(enc(b)) == b incl. key loading, all keys, all blocks"
 verif_harness! {
     name: magma_rt_ed_tc26,
     bytes: 40,
